@@ -1,3 +1,4 @@
+import IceTie.AgentDispatch
 import IceTie.AgentRole
 import IceProofs.AgentC05
 import IceProofs.Sys2C05
@@ -302,6 +303,19 @@ example : (resolveSource { exAgent with cfg := { blockedIPs := [13] } } exL 208 
 example : quiet exAgent [.inbound 5 16 176 (exConflict 9), .advance 300000000, .inbound 6 16 176 (exConflict 9)] = true := by
   decide
 example : quiet exAgent [.inbound 5 16 176 (exConflict 3)] = false := by decide
+
+/-! ## Tie to the code (T, round 3): where the role-conflict test sits in `handleInboundRequest` -/
+
+open IceTie.AgentDispatch in
+/-- an authenticated request whose ICE-CONTROLLING/CONTROLLED attribute parses and names OUR role goes to `handleRoleConflict`
+and nowhere else: the selector is not called and the request is not counted as received traffic (`ok = false`) -/
+theorem C05_code_conflict_dispatch :
+    ∀ remoteNil prioErr, IceGen.agent_handleInboundRequest false false remoteNil false prioErr false true false true
+      = ((if remoteNil then prflxEffs prioErr false else []) ++ [c "handleRoleConflict"], ("nil", false)) :=
+  handleInboundRequest_conflict
+
+example : IceGen.agent_handleInboundRequest false false false false false false true false true
+    = ([IceTie.AgentDispatch.c "handleRoleConflict"], ("nil", false)) := by decide
 
 end IceProps.C05
 
